@@ -55,6 +55,10 @@ def run(ctx):
     items += list(popgen.shape(rng, 50 if q else 400))
     items += list(popgen.occupancy(rng, 70 if q else 500))
     items += list(popgen.cascade(rng, 20 if q else 150))
+    # several partitioned ranks per tensor (shape beneath / above occupancy stacks with a leader per level, flatten, renamed
+    # ranks): the sets of partitionings then have several elements, whose iteration order matters
+    import specgen_wide
+    items += list(specgen_wide.wide_items(rng, 60 if q else 400))
     items += popgen.accelerators()
     for _ in range(50 if q else 400):
         y, meta = specgen_metrics.gen(rng)
